@@ -266,6 +266,17 @@ func (e *Ev) evGhostCall(x *ast.CallExpr) Val {
 			}
 			fx.prog.registerCodeRegex(lid.Name, pat)
 		}
+		if fx.concrete {
+			// witness search: membership of a constant string is computed on the automaton
+			if sv, ok := arg(1).(VStr); ok && sv.Lit != nil {
+				if in, err := fx.prog.langAccepts(lid.Name, *sv.Lit); err == nil {
+					if in {
+						return VBool{"true"}
+					}
+					return VBool{"false"}
+				}
+			}
+		}
 		fx.useSeq = true
 		fx.langsUsed[lid.Name] = true
 		return VBool{"(inlang_" + lid.Name + " " + e.seqArg(arg(1), x) + ")"}
